@@ -132,6 +132,24 @@ def _impl(tier, seed, search):
             if ok and finite_real(r): L.close('SE3.log', ref_exp(skewa(np.asarray(r, float))), Tm, TOL, max(1.0, tmag), dict(T=Tm), sig='exp-log-se3')
             ok, r = L.noraise('SE3.Twist3', lambda: SE3(Tm, check=False).Twist3().SE3().A, dict(T=Tm), 'SE3 -> Twist3 -> SE3')
             if ok and finite_real(r): L.close('SE3.Twist3', r, Tm, TOL, max(1.0, tmag), dict(T=Tm), sig='exp-log-se3')
+            # multi-valued twists: exp / SE3 / log(twist=True) act value by value, with and without a scalar theta
+            S_b = np.r_[vs * 0.5, -w * 0.7]
+            def multi_exp():
+                Tw = Twist3([S, S_b])
+                return ([np.asarray(a_, float) for a_ in Tw.exp().data], [np.asarray(a_, float) for a_ in Tw.exp(0.5).data], [np.asarray(a_, float) for a_ in Tw.SE3().data])
+            ok, r = L.noraise('Twist3(multi).exp', multi_exp, dict(S1=S, S2=S_b), 'multi-valued Twist3.exp / SE3')
+            if ok:
+                wants = ([ref_exp(skewa(S)), ref_exp(skewa(S_b))], [Twist3(S).exp(0.5).A, Twist3(S_b).exp(0.5).A], [ref_exp(skewa(S)), ref_exp(skewa(S_b))])
+                for got_, want_, nm_ in zip(r, wants, ('exp()', 'exp(0.5)', 'SE3()')):
+                    L.check(f'Twist3(multi).{nm_}:len', len(got_) == 2, dict(S1=S, S2=S_b), f'multi-valued Twist3.{nm_} does not return one pose per twist', sig='Twist3(multi).exp:len')
+                    if len(got_) == 2:
+                        for g_, w_ in zip(got_, want_): L.close(f'Twist3(multi).{nm_}', g_, w_, TOL, max(1.0, geom.tmag(w_)), dict(S1=S, S2=S_b), sig='Twist3(multi).exp')
+            for Xp, nm_ in ((SE3(Tm, check=False), 'SE3'), (SO3(Rm, check=False), 'SO3')):
+                ok, r = L.noraise(f'{nm_}.log(twist)', lambda: (np.asarray(Xp.log(twist=True), float), np.asarray(b.trlog(Xp.A, check=False, twist=True), float), np.asarray(Xp.log(), float), np.asarray(b.trlog(Xp.A, check=False), float)),
+                                  dict(T=Xp.A), f'{nm_}.log(twist=True)')
+                if ok and all(np.all(np.isfinite(x_)) for x_ in r):
+                    L.check(f'{nm_}.log(twist):shape', r[0].shape == r[1].shape and r[2].shape == r[3].shape, dict(T=Xp.A), f'{nm_}.log(twist=True) does not return the vector form', sig='class.log:form')
+                    if r[0].shape == r[1].shape: L.close(f'{nm_}.log(twist)', r[0], r[1], 1e-12, max(1.0, tmag), dict(T=Xp.A), sig='class.log:value')
             ok, r = L.noraise('Twist3.exp', lambda: Twist3(S).exp().A, dict(S=S), 'Twist3.exp')
             if ok: L.close('Twist3.exp', r, ref_exp(skewa(S)), TOL, max(1.0, float(np.linalg.norm(S[:3]))), dict(S=S))
         # ---- 2-D ----------------------------------------------------------------------------
